@@ -19,6 +19,7 @@ func init() {
 }
 
 func ruleValCons(c *Ctx) {
+	producerStoresNumStr(c)
 	p := c.pkg("interp")
 	info := p.TypesInfo
 	vm := buildVMModel(c)
